@@ -1,4 +1,69 @@
-import JV.Model.MergePatch
+/-
+  C16 — JSON Merge Patch follows RFC 7386.
+
+  Property theorems only (helpers: JV.Proofs.MergePatch, JV.Proofs.MergePatchDiff, JV.Proofs.Assoc).
+  Model  : JV.Model.MergePatch  (mergepatch.hpp, step for step; `false` = jsoncons::json)
+  Spec   : JV.Spec.Rfc7386      (the RFC's pseudo-code over canonical finite maps)
+  Domain : `JVal.WF` — every object of the value has strictly increasing keys, which is the
+           representation invariant of `jsoncons::json` (sorted_json_object).
+-/
+import JV.Proofs.MergePatchDiff
 namespace JV.Props.C16
-theorem placeholder : True := trivial
+open JV Assoc Model Spec.Rfc7386
+
+/-- apply_merge_patch computes exactly the RFC 7386 MergePatch function, for every target and patch
+    (non-object targets and patches, nested nulls, empty objects, shared/unshared names at any depth). -/
+theorem applyMP_refines_rfc (t p : JVal) (ht : t.WF) (hp : p.WF) :
+    applyMP false t p = mergePatch t p :=
+  (applyMP_spec p t ht hp).1
+
+/-- … and the result again satisfies the container's representation invariant. -/
+theorem applyMP_preserves_inv (t p : JVal) (ht : t.WF) (hp : p.WF) : (applyMP false t p).WF :=
+  (applyMP_spec p t ht hp).2
+
+/-- The Spec says what RFC 7386 means as a statement about finite maps: after merging object patch
+    `pm` into object `tm`, a name absent from the patch keeps its value, a name patched with `null`
+    is absent, and any other patched name maps to MergePatch(old value or nothing, patch value). -/
+theorem rfc_pointwise (k : Bytes) (tm pm : List (Bytes × JVal)) (ht : Sorted tm) (hp : Sorted pm) :
+    find k (mergeMembers tm pm) =
+      match find k pm with
+      | none => find k tm
+      | some pv => if pv.isNull then none else some (mergePatch ((find k tm).getD .null) pv) :=
+  find_mergeMembers k pm tm ht (nodupKeys_of_sorted hp)
+
+/-- the map operation used by the Spec is a map update -/
+theorem assign_is_map_update (k k' : Bytes) (v : JVal) (ms : List (Bytes × JVal)) (hs : Sorted ms) :
+    Sorted (assign k v ms) ∧ find k (assign k v ms) = some v ∧ (k' ≠ k → find k' (assign k v ms) = find k' ms) :=
+  ⟨sorted_assign hs, find_assign_self hs, fun h => find_assign_ne hs h⟩
+
+/-- diff law: for every source and every target without null object members,
+    apply_merge_patch(source, from_diff(source, target)) = target. -/
+theorem diff_law_mp (s t : JVal) (hs : s.WF) (ht : t.WF) (hn : t.NoNullMembers) :
+    applyMP false s (fromDiff false s t) = t :=
+  diff_law_aux s.size s t (Nat.le_refl _) hs ht hn
+
+/-- from_diff produces a well-formed patch -/
+theorem fromDiff_preserves_inv (s t : JVal) (hs : s.WF) (ht : t.WF) : (fromDiff false s t).WF :=
+  fromDiff_WF s t hs ht
+
+/-- the `NoNullMembers` hypothesis of the diff law is necessary (the property states it too) -/
+theorem diff_law_needs_no_null :
+    (applyMP false (.obj []) (fromDiff false (.obj []) (.obj [([97], .null)])) == JVal.obj [([97], .null)]) = false := by
+  decide
+
+/-! ### non-vacuity: concrete non-trivial values meet the hypotheses -/
+
+def exTarget : JVal := .obj [([97], .int 1), ([98], .obj [([99], .int 2), ([100], .arr [.null, .obj [([122], .null)]])])]
+def exPatch : JVal := .obj [([97], .null), ([98], .obj [([99], .null), ([101], .str [0, 255])]), ([102], .arr [.int 1])]
+
+example : exTarget.WF ∧ exPatch.WF := by
+  simp [exTarget, exPatch, JVal.WF, WFMembers, WFList, Sorted, keyLt]
+
+example : applyMP false exTarget exPatch =
+    .obj [([98], .obj [([100], .arr [.null, .obj [([122], .null)]]), ([101], .str [0, 255])]), ([102], .arr [.int 1])] := by
+  decide
+
+example : JVal.NoNullMembers (.obj [([98], .obj [([100], .arr [.null])]), ([102], .arr [.int 1])]) := by
+  simp [JVal.NoNullMembers, NoNullMems, NoNullList, JVal.isNull]
+
 end JV.Props.C16
